@@ -128,7 +128,7 @@ theorem step_append (c : Cfg) (buf x : Bytes) (h : step c () buf ≠ .need) :
 /-- every frame the loop consumes is at least 8 bytes long and lies inside the buffer -/
 theorem step_adv (c : Cfg) (buf : Bytes) (evs : List Event) (k : Nat)
     (h : step c () buf = .adv () evs k) :
-    k = (4 + asInt32 buf 0).toNat ∧ 8 ≤ k ∧ k ≤ buf.length ∧ k ≤ 67108868 := by
+    k = (4 + asInt32 buf 0).toNat ∧ 8 ≤ k ∧ k ≤ buf.length ∧ k ≤ 67108868 ∧ c.tag.length + 8 ≤ k := by
   unfold step at h
   by_cases h1 : headerAvailable buf.length (minLen c)
   · simp only [h1, if_true] at h
@@ -153,7 +153,7 @@ theorem step_adv (c : Cfg) (buf : Bytes) (evs : List Event) (k : Nat)
 theorem stepOk (c : Cfg) : StepOk (fun _ : Unit => True) (step c) where
   adv_ok := by
     intro s buf s' evs k _ h
-    obtain ⟨_, h8, hk, _⟩ := step_adv c buf evs k h
+    obtain ⟨_, h8, hk, _, _⟩ := step_adv c buf evs k h
     exact ⟨by omega, hk, trivial⟩
   adv_mono := by
     intro s buf s' evs k x _ h
@@ -278,5 +278,286 @@ theorem step_encode_oversize (c : Cfg) (p rest : Bytes)
   unfold step
   simp only [hlen, h1, h2, if_true]
   rfl
+
+
+/-! ### the loop on whole streams -/
+
+theorem step_short (c : Cfg) (buf : Bytes) (h : buf.length < c.tag.length + 8) : step c () buf = .need := by
+  unfold step
+  have : ¬ headerAvailable buf.length (minLen c) := by rw [headerAvailable_iff]; omega
+  simp only [this, if_false]
+
+theorem init_settled (c : Cfg) : Settled (fun _ : Unit => True) (step c) Codec.init :=
+  ⟨trivial, Or.inr (step_short c [] (by simp only [List.length_nil]; omega))⟩
+
+theorem decode_eq (c : Cfg) (s : Bytes) :
+    decode c s = ({ s := (), buf := (onMessage c s).rest, dead := (onMessage c s).dead }, (onMessage c s).evs) := by
+  simp [decode, feed, Stream.feed, Codec.init, onMessage]
+
+theorem decode_fail (c : Cfg) (s : Bytes) (e : Event) (h : step c () s = .fail e) :
+    decode c s = ({ s := (), buf := s, dead := true }, [e]) := by
+  rw [decode_eq]; unfold onMessage
+  rw [drain_unfold (stepOk c) () s trivial, h]
+
+theorem decode_short (c : Cfg) (s : Bytes) (h : s.length < c.tag.length + 8) :
+    decode c s = ({ s := (), buf := s, dead := false }, []) := by
+  rw [decode_eq]; unfold onMessage
+  rw [drain_unfold (stepOk c) () s trivial, step_short c s h]
+
+theorem onMessage_encode_append (c : Cfg) (p rest : Bytes)
+    (hmax : c.tag.length + p.length + kChecksumLen ≤ kMaxMessageLen)
+    (hp : c.parsePayload p = true) (hraw : c.rawSkip (encode c p) = false) :
+    onMessage c (encode c p ++ rest) = (onMessage c rest).pre [.msg p] := by
+  unfold onMessage
+  rw [drain_unfold (stepOk c) () _ trivial, step_encode c p rest hmax hp hraw]
+  simp
+
+theorem decode_encode_append (c : Cfg) (p rest : Bytes)
+    (hmax : c.tag.length + p.length + kChecksumLen ≤ kMaxMessageLen)
+    (hp : c.parsePayload p = true) (hraw : c.rawSkip (encode c p) = false) :
+    decode c (encode c p ++ rest) = ((decode c rest).1, .msg p :: (decode c rest).2) := by
+  rw [decode_eq, decode_eq, onMessage_encode_append c p rest hmax hp hraw]
+  rfl
+
+theorem decode_stream (c : Cfg) (ps : List Bytes) (tail : Bytes)
+    (hmax : ∀ p ∈ ps, c.tag.length + p.length + kChecksumLen ≤ kMaxMessageLen)
+    (hp : ∀ p ∈ ps, c.parsePayload p = true) (hraw : ∀ p ∈ ps, c.rawSkip (encode c p) = false)
+    (htail : tail.length < c.tag.length + 8) :
+    decode c ((ps.map (encode c)).flatten ++ tail) = ({ s := (), buf := tail, dead := false }, ps.map .msg) := by
+  induction ps with
+  | nil => simpa using decode_short c tail htail
+  | cons p ps ih =>
+    simp only [List.map_cons, List.flatten_cons, List.append_assoc]
+    rw [decode_encode_append c p _ (hmax p (by simp)) (hp p (by simp)) (hraw p (by simp)),
+      ih (fun q hq => hmax q (by simp [hq])) (fun q hq => hp q (by simp [hq]))
+        (fun q hq => hraw q (by simp [hq]))]
+
+/-- what an iteration can emit: an error is one of the five error codes, never `kNoError` -/
+theorem step_fail_is_err (c : Cfg) (buf : Bytes) (e : Event) (h : step c () buf = .fail e) :
+    ∃ code, code ≠ .kNoError ∧ e = .err code := by
+  unfold step at h
+  split at h
+  · split at h
+    · cases h; exact ⟨lengthError, by unfold lengthError; decide, rfl⟩
+    · split at h
+      · split at h
+        · cases h
+        · split at h
+          · cases h
+          · next e' hne => cases h; exact ⟨_, fun hh => hne hh, rfl⟩
+      · cases h
+  · cases h
+
+/-- ... and progress comes with no event (raw callback dropped the frame) or one message -/
+theorem step_adv_evs (c : Cfg) (buf : Bytes) (evs : List Event) (k : Nat)
+    (h : step c () buf = .adv () evs k) : evs = [] ∨ ∃ p, evs = [.msg p] := by
+  unfold step at h
+  split at h
+  · split at h
+    · cases h
+    · split at h
+      · split at h
+        · cases h; exact Or.inl rfl
+        · split at h
+          · cases h; exact Or.inr ⟨_, rfl⟩
+          · cases h
+      · cases h
+  · cases h
+
+theorem onMessage_shape (c : Cfg) : ∀ (n : Nat) (buf : Bytes), buf.length = n →
+    ∃ ps : List Bytes,
+      ((onMessage c buf).dead = false ∧ (onMessage c buf).evs = ps.map .msg) ∨
+      ((onMessage c buf).dead = true ∧ ∃ e, e ≠ .kNoError ∧ (onMessage c buf).evs = ps.map .msg ++ [.err e]) := by
+  intro n
+  induction n using Nat.strongRecOn with
+  | _ n ih =>
+    intro buf hn
+    unfold onMessage
+    rw [drain_unfold (stepOk c) () buf trivial]
+    cases hs : step c () buf with
+    | need => exact ⟨[], Or.inl ⟨rfl, rfl⟩⟩
+    | fail e =>
+      obtain ⟨code, hc, rfl⟩ := step_fail_is_err c buf e hs
+      exact ⟨[], Or.inr ⟨rfl, code, hc, rfl⟩⟩
+    | adv s' evs k =>
+      obtain ⟨_, h8, hkl, _, _⟩ := step_adv c buf evs k hs
+      obtain ⟨ps, h⟩ := ih (buf.drop k).length (by simp only [List.length_drop]; omega) (buf.drop k) rfl
+      unfold onMessage at h
+      simp only [Res.pre_dead, Res.pre_evs]
+      rcases step_adv_evs c buf evs k hs with rfl | ⟨p, rfl⟩
+      · exact ⟨ps, by simpa using h⟩
+      · refine ⟨p :: ps, ?_⟩
+        rcases h with ⟨h1, h2⟩ | ⟨h1, e, he, h2⟩
+        · exact Or.inl ⟨h1, by simp [h2]⟩
+        · exact Or.inr ⟨h1, e, he, by simp [h2]⟩
+
+theorem decode_shape (c : Cfg) (s : Bytes) :
+    ∃ ps : List Bytes,
+      ((decode c s).1.dead = false ∧ (decode c s).2 = ps.map .msg) ∨
+      ((decode c s).1.dead = true ∧ ∃ e, e ≠ .kNoError ∧ (decode c s).2 = ps.map .msg ++ [.err e]) := by
+  rw [decode_eq]
+  exact onMessage_shape c _ s rfl
+
+/-- the verdict on a consumed frame is a function of exactly the consumed bytes -/
+theorem step_take (c : Cfg) (buf : Bytes) (evs : List Event) (k : Nat)
+    (h : step c () buf = .adv () evs k) : step c () (buf.take k) = .adv () evs k := by
+  obtain ⟨hk, h8, hkl, hmaxk, htag⟩ := step_adv c buf evs k h
+  have hlenk : (buf.take k).length = k := by simp only [List.length_take]; omega
+  have hsplit : buf.take k ++ buf.drop k = buf := List.take_append_drop k buf
+  have hlen : asInt32 buf 0 = asInt32 (buf.take k) 0 := by
+    have := asInt32_append (buf.take k) (buf.drop k) 0 (by simp only [hlenk]; omega)
+    rw [hsplit] at this; exact this
+  have hne : step c () (buf.take k) ≠ .need := by
+    have h1 : headerAvailable (buf.take k).length (minLen c) := by rw [headerAvailable_iff, hlenk]; exact htag
+    have h2 : ¬ lenOutOfRange (asInt32 (buf.take k) 0) (minLen c) := by
+      rw [lenOutOfRange_iff, ← hlen]; omega
+    have h3 : frameAvailable (buf.take k).length (asInt32 (buf.take k) 0) := by
+      rw [frameAvailable_iff, hlenk, ← hlen]; omega
+    unfold step
+    simp only [h1, h2, h3, if_true, if_false]
+    split
+    · intro hh; cases hh
+    · split <;> (intro hh; cases hh)
+  have := step_append c (buf.take k) (buf.drop k) hne
+  rw [hsplit] at this
+  rw [← this]; exact h
+
+/-! ### arbitrary frames: what each of `parse`'s tests means on the bytes -/
+
+/-- a length field announcing `body`, then `body` -/
+def frame (body : Bytes) : Bytes := intBytes 4 (body.length : Int) ++ body
+
+/-- the signed big-endian value in the last four bytes of the frame body -/
+def storedChecksum (body : Bytes) : Int := toSigned 32 (decodeBE (body.drop (body.length - 4)))
+/-- `(int32_t) adler32(1, ...)` of everything before them -/
+def computedChecksum (body : Bytes) : Int := checksum32 1 (body.take (body.length - 4))
+
+theorem validateChecksum_iff (body : Bytes) (h4 : 4 ≤ body.length) :
+    validateChecksum body = true ↔ storedChecksum body = computedChecksum body := by
+  unfold validateChecksum storedChecksum computedChecksum asInt32 slice checksumFrom checksumLen checksumAt
+    kChecksumLen adlerInit
+  have e1 : (((body.length : Int) - ((4 : Nat) : Int))).toNat = body.length - 4 := by omega
+  have e2 : ((0 : Int) + (body.length : Int) - ((4 : Nat) : Int)).toNat = body.length - 4 := by omega
+  have e3 : ((4 : Int)).toNat = 4 := rfl
+  have e0 : ((0 : Int)).toNat = 0 := rfl
+  rw [e1, e2, e3, e0, List.drop_zero]
+  have : (body.drop (body.length - 4)).take 4 = body.drop (body.length - 4) :=
+    List.take_of_length_le (by simp only [List.length_drop]; omega)
+  rw [this]
+  constructor
+  · intro h; exact (beq_iff_eq.mp h).symm
+  · intro h; exact beq_iff_eq.mpr h.symm
+
+theorem tagMatches_iff (c : Cfg) (body : Bytes) :
+    tagMatches c body = true ↔ body.take c.tag.length = c.tag := by
+  unfold tagMatches slice tagAt tagCmpLen
+  simp
+
+theorem payloadOf_eq (c : Cfg) (body : Bytes) :
+    payloadOf c body = (body.drop c.tag.length).take (body.length - 4 - c.tag.length) := by
+  unfold payloadOf slice payloadAt payloadLen kChecksumLen
+  have e1 : ((0 : Int) + (c.tag.length : Int)).toNat = c.tag.length := by omega
+  have e2 : ((body.length : Int) - ((4 : Nat) : Int) - (c.tag.length : Int)).toNat
+      = body.length - 4 - c.tag.length := by omega
+  rw [e1, e2]
+
+/-- one iteration on a complete frame whose length field is in range -/
+theorem step_frame (c : Cfg) (body rest : Bytes)
+    (hmin : c.tag.length + kChecksumLen ≤ body.length) (hmax : body.length ≤ kMaxMessageLen)
+    (hraw : c.rawSkip (frame body) = false) :
+    step c () (frame body ++ rest) =
+      match parse c body with
+      | .kNoError => .adv () [.msg (payloadOf c body)] (4 + body.length)
+      | e => .fail (.err e) := by
+  unfold kChecksumLen at hmin
+  unfold kMaxMessageLen at hmax
+  have hfl : (frame body).length = 4 + body.length := by
+    simp only [frame, List.length_append, intBytes_length]
+  have hlen : asInt32 (frame body ++ rest) 0 = (body.length : Int) := by
+    unfold frame; rw [List.append_assoc]
+    exact asInt32_intBytes_nat _ (by omega) _
+  have hbl : (frame body ++ rest).length = 4 + body.length + rest.length := by
+    rw [List.length_append, hfl]
+  have h1 : headerAvailable (frame body ++ rest).length (minLen c) := by
+    rw [headerAvailable_iff]; omega
+  have h2 : ¬ lenOutOfRange (body.length : Int) (minLen c) := by
+    rw [lenOutOfRange_iff]; omega
+  have h3 : frameAvailable (frame body ++ rest).length (body.length : Int) := by
+    rw [frameAvailable_iff]; omega
+  have hk : (consumedBytes (body.length : Int)).toNat = 4 + body.length := by
+    rw [consumedBytes_eq]; omega
+  have ht : (frame body ++ rest).take (4 + body.length) = frame body := by
+    rw [← hfl]; simp
+  have hs : slice (frame body ++ rest) frameOffset (frameLen (body.length : Int)) = body := by
+    unfold frame; rw [List.append_assoc]
+    have : frameOffset = ((intBytes 4 (body.length : Int)).length : Int) := by
+      rw [intBytes_length]; unfold frameOffset kHeaderLen; omega
+    rw [this]
+    unfold frameLen
+    exact slice_skip_append _ _ _
+  unfold step
+  simp only [hlen, h1, h2, h3, if_true, if_false, hk, ht, hraw, hs, Bool.false_eq_true]
+  cases parse c body <;> rfl
+
+theorem step_bad_length (c : Cfg) (stream : Bytes) (h : c.tag.length + 8 ≤ stream.length)
+    (hr : asInt32 stream 0 > (kMaxMessageLen : Int) ∨ asInt32 stream 0 < (c.tag.length : Int) + kChecksumLen) :
+    step c () stream = .fail (.err .kInvalidLength) := by
+  unfold kMaxMessageLen kChecksumLen at hr
+  have h1 : headerAvailable stream.length (minLen c) := by rw [headerAvailable_iff]; exact h
+  have h2 : lenOutOfRange (asInt32 stream 0) (minLen c) := by rw [lenOutOfRange_iff]; omega
+  unfold step
+  simp only [h1, h2, if_true]
+  rfl
+
+theorem step_frame_checksum (c : Cfg) (body rest : Bytes)
+    (hmin : c.tag.length + kChecksumLen ≤ body.length) (hmax : body.length ≤ kMaxMessageLen)
+    (hraw : c.rawSkip (frame body) = false) (hck : storedChecksum body ≠ computedChecksum body) :
+    step c () (frame body ++ rest) = .fail (.err .kCheckSumError) := by
+  have h4 : 4 ≤ body.length := by unfold kChecksumLen at hmin; omega
+  have hv : validateChecksum body = false := by
+    cases hh : validateChecksum body with
+    | false => rfl
+    | true => exact absurd ((validateChecksum_iff body h4).mp hh) hck
+  rw [step_frame c body rest hmin hmax hraw]
+  simp only [parse, parseDecision, hv, Bool.false_eq_true, if_false]
+
+theorem step_frame_tag (c : Cfg) (body rest : Bytes)
+    (hmin : c.tag.length + kChecksumLen ≤ body.length) (hmax : body.length ≤ kMaxMessageLen)
+    (hraw : c.rawSkip (frame body) = false) (hck : storedChecksum body = computedChecksum body)
+    (htag : body.take c.tag.length ≠ c.tag) :
+    step c () (frame body ++ rest) = .fail (.err .kUnknownMessageType) := by
+  have h4 : 4 ≤ body.length := by unfold kChecksumLen at hmin; omega
+  have hv : validateChecksum body = true := (validateChecksum_iff body h4).mpr hck
+  have ht : tagMatches c body = false := by
+    cases hh : tagMatches c body with
+    | false => rfl
+    | true => exact absurd ((tagMatches_iff c body).mp hh) htag
+  rw [step_frame c body rest hmin hmax hraw]
+  simp only [parse, parseDecision, hv, ht, Bool.false_eq_true, if_true, if_false]
+
+theorem step_frame_parse (c : Cfg) (body rest : Bytes)
+    (hmin : c.tag.length + kChecksumLen ≤ body.length) (hmax : body.length ≤ kMaxMessageLen)
+    (hraw : c.rawSkip (frame body) = false) (hck : storedChecksum body = computedChecksum body)
+    (htag : body.take c.tag.length = c.tag)
+    (hp : c.parsePayload ((body.drop c.tag.length).take (body.length - 4 - c.tag.length)) = false) :
+    step c () (frame body ++ rest) = .fail (.err .kParseError) := by
+  have h4 : 4 ≤ body.length := by unfold kChecksumLen at hmin; omega
+  have hv : validateChecksum body = true := (validateChecksum_iff body h4).mpr hck
+  have ht : tagMatches c body = true := (tagMatches_iff c body).mpr htag
+  rw [step_frame c body rest hmin hmax hraw]
+  simp only [parse, parseDecision, hv, ht, payloadOf_eq, hp, Bool.false_eq_true, if_true, if_false]
+
+theorem step_frame_good (c : Cfg) (body rest : Bytes)
+    (hmin : c.tag.length + kChecksumLen ≤ body.length) (hmax : body.length ≤ kMaxMessageLen)
+    (hraw : c.rawSkip (frame body) = false) (hck : storedChecksum body = computedChecksum body)
+    (htag : body.take c.tag.length = c.tag)
+    (hp : c.parsePayload ((body.drop c.tag.length).take (body.length - 4 - c.tag.length)) = true) :
+    step c () (frame body ++ rest)
+      = .adv () [.msg ((body.drop c.tag.length).take (body.length - 4 - c.tag.length))] (4 + body.length) := by
+  have h4 : 4 ≤ body.length := by unfold kChecksumLen at hmin; omega
+  have hv : validateChecksum body = true := (validateChecksum_iff body h4).mpr hck
+  have ht : tagMatches c body = true := (tagMatches_iff c body).mpr htag
+  rw [step_frame c body rest hmin hmax hraw]
+  simp only [parse, parseDecision, hv, ht, payloadOf_eq, hp, if_true]
 
 end MuduoVerif.Codec
